@@ -181,7 +181,7 @@ macro "py_eval" : tactic =>
       (try simp only [natOf, boolOf, Except.ok.injEq, reduceCtorEq]) <;>
       first
         | done
-        | rfl
+        | (with_reducible rfl)
         | omega
         | (exfalso; omega)
         | (simp_all (config := { decide := true }) <;> omega)))
@@ -197,6 +197,15 @@ theorem alignOffset_int (x : Int) (hx : 0 ≤ x) : HabFuns.alignOffset x = .ok (
 /-- `py_eval` for bodies that call `alignOffset` (on any non-negative argument expression) -/
 macro "py_eval_align" : tactic =>
   `(tactic| ((try simp (disch := omega) only [alignOffset_int, ← Int.natCast_add, Int.toNat_natCast]) <;> py_eval))
+
+theorem nat_and_255 (n : Nat) : n &&& 255 = n % 256 := Nat.and_two_pow_sub_one_eq_mod n 8
+theorem nat_and_15 (n : Nat) : n &&& 15 = n % 16 := Nat.and_two_pow_sub_one_eq_mod n 4
+
+/-- `py_eval` for bodies with shifts / byte masks of non-negative operands: `<<`, `>>`, `& 0xFF` become `*`, `/`, `%` first, so that
+    `x & 0xFF` and `x % 256`, `x << 4` and `x * 16`, `x >> 8` and `x // 256` are the same to the proof -/
+macro "py_bits" : tactic =>
+  `(tactic| ((try simp only [pyAnd_nat, pyShl_nat, pyShr_nat, Int.reduceToNat, Int.toNat_natCast, nat_and_255, nat_and_15,
+      Nat.shiftLeft_eq, Nat.shiftRight_eq_div_pow, Nat.reducePow]) <;> py_eval))
 
 theorem csfAbs_gt (n : Nat) : n < csfAbs n := by
   unfold csfAbs
